@@ -68,6 +68,12 @@ fn fetch_add_u64(a: &mut u64, v: u64) -> (old_v: u64)
     o
 }
 fn load_u64(a: &u64) -> (v: u64) ensures v == *a { *a }
+// rule R8: the fold step of Iterator::min over EpochId (derived Ord on a u64 newtype compares the u64)
+fn opt_min(a: Option<EpochId>, b: EpochId) -> (r: Option<EpochId>)
+    ensures r is Some, (r->0).0 <= b.0, a is Some ==> (r->0).0 <= (a->0).0, r == Some(b) || r == a,
+{
+    match a { None => Some(b), Some(cur) => if b.as_u64() < cur.as_u64() { Some(b) } else { Some(cur) } }
+}
 
 @@TransactionManager@@
 
@@ -100,6 +106,44 @@ proof fn lemma_get_mut_effect(old_m: Map<TxId, TxInfo>, new_m: Map<TxId, TxInfo>
     }
 }
 
+pub open spec fn active(txs: Map<TxId, TxInfo>, k: TxId) -> bool { txs.contains_key(k) && txs[k].state == TxState::Active }
+/// gc may drop x: it is aborted, or it committed strictly before every active transaction began
+pub open spec fn removable(txs: Map<TxId, TxInfo>, ce: Map<TxId, EpochId>, min: Option<EpochId>, x: TxId) -> bool {
+    txs[x].state == TxState::Aborted
+    || (txs[x].state == TxState::Committed && (min is None || (ce.contains_key(x) && ce[x].0 < (min->0).0)))
+}
+/// commit epochs are recorded for committed transactions only (established by commit())
+pub open spec fn tm_wf(txs: Map<TxId, TxInfo>, ce: Map<TxId, EpochId>) -> bool {
+    forall|o: TxId| txs.contains_key(o) && ce.contains_key(o) ==> txs[o].state == TxState::Committed
+}
+/// What gc guarantees (its postconditions), as one predicate over the before/after views.
+pub open spec fn gc_post(t0: Map<TxId, TxInfo>, c0: Map<TxId, EpochId>, t1: Map<TxId, TxInfo>, c1: Map<TxId, EpochId>) -> bool {
+    &&& forall|k: TxId| t1.contains_key(k) ==> t0.contains_key(k) && t1[k] == t0[k]
+    &&& forall|k: TxId| c1.contains_key(k) ==> c0.contains_key(k) && c1[k] == c0[k]
+    &&& forall|k: TxId| c0.contains_key(k) && t1.contains_key(k) ==> c1.contains_key(k)
+    &&& forall|t: TxId| t0.contains_key(t) && t0[t].state == TxState::Active ==> t1.contains_key(t)
+    &&& forall|t: TxId, o: TxId| t0.contains_key(t) && t0[t].state == TxState::Active && t0.contains_key(o) && t0[o].state == TxState::Committed
+            && c0.contains_key(o) && c0[o].0 >= t0[t].start_epoch.0 ==> #[trigger] t1.contains_key(o) || !#[trigger] t0.contains_key(t)
+}
+/// C03 "cleaning up finished transactions never changes which commits are accepted": for every transaction still active,
+/// the set of overlapping committed writers that commit() looks for is the same before and after gc.
+proof fn lemma_gc_preserves_conflicts(t0: Map<TxId, TxInfo>, c0: Map<TxId, EpochId>, t1: Map<TxId, TxInfo>, c1: Map<TxId, EpochId>, t: TxId, o: TxId, mine: Set<EntityId>)
+    requires gc_post(t0, c0, t1, c1), tm_wf(t0, c0), t0.contains_key(t), t0[t].state == TxState::Active,
+    ensures overlaps_on(t0, c0, t, o, mine) == overlaps_on(t1, c1, t, o, mine),
+{
+    if overlaps_on(t0, c0, t, o, mine) {
+        assert(t0[o].state == TxState::Committed);
+        assert(t1.contains_key(o) || !t0.contains_key(t));
+        assert(t1.contains_key(t));
+        assert(c1.contains_key(o));
+    }
+    if overlaps_on(t1, c1, t, o, mine) {
+        assert(t0.contains_key(o) && t1[o] == t0[o]);
+        assert(c0.contains_key(o) && c1[o] == c0[o]);
+        assert(t1[t] == t0[t]);
+    }
+}
+
 impl TxInfo {
     @@TxInfo::new@@
 }
@@ -114,6 +158,64 @@ impl TransactionManager {
     @@TransactionManager::record_write@@
 
     @@TransactionManager::record_read@@
+
+    @@TransactionManager::gc@@
+}
+
+// ---- C03 over the contracts alone (callers see only callee contracts) -------------------------------
+/// Two transactions whose lifetimes overlap both write entity e: they cannot both commit (first committer wins).
+fn scenario_overlapping_writers(m: &mut TransactionManager, e: EntityId, i1: IsolationLevel, i2: IsolationLevel) -> (both: bool)
+    requires old(m).next_tx_id < u64::MAX - 2, old(m).current_epoch < u64::MAX - 4,
+    ensures !both,
+{
+    let t1 = m.begin_with_isolation(i1);
+    let t2 = m.begin_with_isolation(i2);
+    let w1 = m.record_write(t1, e);
+    let w2 = m.record_write(t2, e);
+    assert(w1 is Ok && w2 is Ok);
+    let ghost e0 = m.current_epoch;
+    let c1 = m.commit(t1);
+    let ghost T = m.transactions@;
+    let ghost C = m.committed_epochs@;
+    let c2 = m.commit(t2);
+    proof {
+        if c1 is Ok {
+            assert(T[t1].write_set@.contains(e) && T[t2].write_set@.contains(e));
+            assert(meets(T[t2].write_set@, T[t1].write_set@));
+            assert(C[t1].0 == e0 + 1 && T[t2].start_epoch.0 == e0);
+            assert(overlaps_on(T, C, t2, t1, T[t2].write_set@));
+        }
+    }
+    c1.is_ok() && c2.is_ok()
+}
+
+/// A writer that committed BEFORE the next transaction began is never the reason for a write conflict:
+/// if t2 is refused with WriteConflict, some transaction other than t1 overlapped it.
+fn scenario_sequential_writers(m: &mut TransactionManager, e: EntityId) -> (r: (bool, TxId))
+    requires old(m).next_tx_id < u64::MAX - 2, old(m).current_epoch < u64::MAX - 4,
+    ensures r.0 ==> exists|o: TxId| o != r.1 && r.1.0 == old(m).next_tx_id && #[trigger] final(m).transactions@.contains_key(o) && final(m).committed_epochs@.contains_key(o)
+                && final(m).committed_epochs@[o].0 > old(m).current_epoch + 1,
+{
+    let t1 = m.begin_with_isolation(IsolationLevel::SnapshotIsolation);
+    let w1 = m.record_write(t1, e);
+    let c1 = m.commit(t1);
+    let t2 = m.begin_with_isolation(IsolationLevel::SnapshotIsolation);
+    let w2 = m.record_write(t2, e);
+    let ghost T = m.transactions@;
+    let ghost C = m.committed_epochs@;
+    let c2 = m.commit(t2);
+    let conflict = match c2 { Err(Error::Transaction(TransactionError::WriteConflict(_))) => true, _ => false };
+    let both = conflict && c1.is_ok();
+    proof {
+        if both {
+            let o = choose|o: TxId| overlaps_on(T, C, t2, o, T[t2].write_set@);
+            // t1 committed at an epoch <= t2's start epoch, so it is not the overlapping writer
+            assert(C[t1].0 <= T[t2].start_epoch.0);
+            assert(o != t1);
+            assert(m.transactions@.contains_key(o) && m.committed_epochs@.contains_key(o));
+        }
+    }
+    (both, t1)
 }
 
 } // verus!
@@ -243,6 +345,7 @@ def build(repo):
                 &&& final(self).transactions@[tx_id].start_epoch == old(self).transactions@[tx_id].start_epoch
                 &&& forall|o: TxId| o != tx_id && old(self).transactions@.contains_key(o) ==> final(self).transactions@[o] == old(self).transactions@[o]
             }''', ['C02', 'C03', 'C20'])
+    f.ensures('ids_untouched', 'final(self).next_tx_id == old(self).next_tx_id', ['C20', 'C03'])
     f.body_start('proof { axiom_keys(); }')
     f.insert_inline('ok_or_else(||', ' -> (e: Error) ensures e matches Error::Transaction(TransactionError::InvalidState(_))')
     # loops, in textual order: 0 outer(transactions) 1 inner(ws) | 2 outer(committed) 3 inner(ws) | 4 outer(committed) 5 inner(rs) | 6 outer(transactions) 7 inner(rs)
@@ -323,7 +426,83 @@ def build(repo):
         f.body_start('proof { axiom_keys(); }\nlet ghost T0 = old(self).transactions@;')
         f.before('return Err', 'proof { lemma_get_mut_effect(T0, self.transactions@, tx_id); }')
         f.before_tail('proof { lemma_get_mut_effect(T0, self.transactions@, tx_id); }')
-    u.not_covered += ['TransactionManager::gc (values().filter().map().min(), iter().filter().collect(): adapter chains) - "clean-up never changes which commits are accepted" is UNDECIDED',
+
+    # ---- gc ("cleaning up finished transactions never changes which commits are accepted") ------------
+    f = u.method(SRC, 'TransactionManager', 'gc').D1().ret('n').props('C03', 'C04')
+    f.sub('E3', '    let mut txns = self.transactions.write();\n', '')
+    f.sub('E3', '    let mut committed = self.committed_epochs.write();\n', '')
+    f.resub('E3', r'\btxns\b', 'self.transactions')
+    f.resub('E3', r'\bcommitted\b(?!_)', 'self.committed_epochs')
+    f.sub('E3', 'pub fn gc(&self)', 'pub fn gc(&mut self)')
+    f.R8('min_active_start', ty='Option<EpochId>').R9('to_remove')
+    f.ensures('cleanup_safe', 'gc_post(old(self).transactions@, old(self).committed_epochs@, final(self).transactions@, final(self).committed_epochs@)', ['C03', 'C04'])
+    f.ensures('frame', 'final(self).current_epoch == old(self).current_epoch && final(self).next_tx_id == old(self).next_tx_id', ['C03', 'C20'])
+    f.ensures('count', 'n == old(self).transactions@.len() - final(self).transactions@.len()', ['C03'])
+    FRAME = 'self.transactions@ == T0 && self.committed_epochs@ == C0 && T0 == old(self).transactions@ && C0 == old(self).committed_epochs@ && self.current_epoch == old(self).current_epoch && self.next_tx_id == old(self).next_tx_id'
+    SEEN = [('seen_sound', 'forall|i: int| 0 <= i < it.seq().len() ==> T0.contains_key(*(#[trigger] it.seq()[i]).0) && T0[*it.seq()[i].0] == *it.seq()[i].1'),
+            ('seen_complete', 'forall|kk: TxId| T0.contains_key(kk) ==> exists|i: int| 0 <= i < it.seq().len() && *it.seq()[i].0 == kk')]
+    f.body_start('proof { axiom_keys(); }\nlet ghost T0 = old(self).transactions@;\nlet ghost C0 = old(self).committed_epochs@;')
+    L0 = f.loop(0).kind('for').iter('it').props('C03', 'C04')
+    L0.invariants(('keys', 'obeys_key_model::<TxId>() && obeys_key_model::<EntityId>()'), ('frame', FRAME), *SEEN)
+    L0.invariant('lower_bound', 'forall|i: int| 0 <= i < it.index@ ==> (#[trigger] active(T0, *it.seq()[i].0) ==> min_active_start is Some && (min_active_start->0).0 <= T0[*it.seq()[i].0].start_epoch.0)')
+    L0.after('''let ghost MIN = min_active_start;
+proof {
+    assert forall|t: TxId| active(T0, t) implies MIN is Some && (MIN->0).0 <= T0[t].start_epoch.0 by {
+        if T0.contains_key(t) { }
+    }
+}''')
+    L1 = f.loop(1).kind('for').iter('it').props('C03', 'C04')
+    L1.invariants(('keys', 'obeys_key_model::<TxId>() && obeys_key_model::<EntityId>()'), ('frame', FRAME), *SEEN)
+    L1.invariant('min_fixed', 'min_active_start == MIN')
+    L1.invariant('listed_removable', 'forall|j: int| 0 <= j < to_remove@.len() ==> T0.contains_key(#[trigger] to_remove@[j]) && removable(T0, C0, MIN, to_remove@[j])')
+    L2 = f.loop(2).kind('for').iter('it2').props('C03', 'C04')
+    L2.invariants(
+        ('keys', 'obeys_key_model::<TxId>() && obeys_key_model::<EntityId>()'),
+        ('frame', 'T0 == old(self).transactions@ && C0 == old(self).committed_epochs@ && self.current_epoch == old(self).current_epoch && self.next_tx_id == old(self).next_tx_id && initial_count == T0.len()'),
+        ('listed_removable', 'forall|j: int| 0 <= j < to_remove@.len() ==> T0.contains_key(#[trigger] to_remove@[j]) && removable(T0, C0, MIN, to_remove@[j])'),
+        ('kept_unchanged', 'forall|k: TxId| #![trigger self.transactions@.contains_key(k)] self.transactions@.contains_key(k) ==> T0.contains_key(k) && self.transactions@[k] == T0[k]'),
+        ('ce_kept_unchanged', 'forall|k: TxId| #![trigger self.committed_epochs@.contains_key(k)] self.committed_epochs@.contains_key(k) ==> C0.contains_key(k) && self.committed_epochs@[k] == C0[k]'),
+        ('listed_are_gone', 'forall|j: int| 0 <= j < it2.index@ ==> !self.transactions@.contains_key(#[trigger] to_remove@[j])'),
+        ('only_listed_removed', 'forall|k: TxId| T0.contains_key(k) && !self.transactions@.contains_key(k) ==> exists|j: int| 0 <= j < it2.index@ && to_remove@[j] == k'),
+        ('ce_only_listed_removed', 'forall|k: TxId| C0.contains_key(k) && !self.committed_epochs@.contains_key(k) ==> exists|j: int| 0 <= j < it2.index@ && to_remove@[j] == k'),
+        ('len', 'self.transactions@.len() <= initial_count && self.transactions@.dom().finite()'),
+        ('iter', 'it2.seq().len() == to_remove@.len() && forall|j: int| 0 <= j < it2.seq().len() ==> *(#[trigger] it2.seq()[j]) == to_remove@[j]'),
+    )
+    L2.body_start('let ghost pre_t = self.transactions@; let ghost pre_c = self.committed_epochs@;')
+    L2.body_end('''proof {
+    assert(self.transactions@ == pre_t.remove(*id));
+    assert(self.committed_epochs@ == pre_c.remove(*id));
+    assert forall|k: TxId| #![trigger self.transactions@.contains_key(k)] self.transactions@.contains_key(k) implies T0.contains_key(k) && self.transactions@[k] == T0[k] by {
+        assert(pre_t.contains_key(k));
+    }
+    assert forall|k: TxId| #![trigger self.committed_epochs@.contains_key(k)] self.committed_epochs@.contains_key(k) implies C0.contains_key(k) && self.committed_epochs@[k] == C0[k] by {
+        assert(pre_c.contains_key(k));
+    }
+}''')
+    L2.after('''proof {
+    assert forall|t: TxId, o: TxId| T0.contains_key(t) && T0[t].state == TxState::Active && T0.contains_key(o) && T0[o].state == TxState::Committed
+            && C0.contains_key(o) && C0[o].0 >= T0[t].start_epoch.0 implies #[trigger] self.transactions@.contains_key(o) || !#[trigger] T0.contains_key(t) by {
+        if !self.transactions@.contains_key(o) {
+            let j = choose|j: int| 0 <= j < to_remove@.len() && to_remove@[j] == o;
+            assert(removable(T0, C0, MIN, to_remove@[j]));
+            assert(active(T0, t));
+            assert(MIN is Some && (MIN->0).0 <= T0[t].start_epoch.0);
+        }
+    }
+    assert forall|t: TxId| T0.contains_key(t) && T0[t].state == TxState::Active implies self.transactions@.contains_key(t) by {
+        if !self.transactions@.contains_key(t) {
+            let j = choose|j: int| 0 <= j < to_remove@.len() && to_remove@[j] == t;
+            assert(removable(T0, C0, MIN, to_remove@[j]));
+        }
+    }
+    assert forall|k: TxId| C0.contains_key(k) && self.transactions@.contains_key(k) implies self.committed_epochs@.contains_key(k) by {
+        if !self.committed_epochs@.contains_key(k) {
+            let j = choose|j: int| 0 <= j < to_remove@.len() && to_remove@[j] == k;
+            assert(!self.transactions@.contains_key(to_remove@[j]));
+        }
+    }
+}''')
+    u.not_covered += [
                       'TransactionManager::abort_all_active (values_mut), min_active_epoch, active_count',
                       'Session / operators calling the manager; parallel.rs; every multi-threaded interleaving']
     return u
